@@ -211,6 +211,7 @@ func (g *stringGen) value(t *T) string {
 		n := utf8.RuneLen(r)
 
 		if n < 0 || b.Len()+n > maxLen {
+			t.failOnError() // see sliceGen.value
 			repeat.reject()
 		} else {
 			b.WriteRune(r)
